@@ -15,6 +15,7 @@ import (
 	"verifharness/c23"
 	"verifharness/hk"
 	"verifharness/sqlsched"
+	"verifharness/util"
 )
 
 func init() { hk.Register("c25", Run) }
@@ -40,6 +41,16 @@ func cond(col string, v int) string {
 }
 
 func Run(raw json.RawMessage) (any, error) {
+	var hdr struct {
+		Mode string `json:"mode"`
+	}
+	_ = json.Unmarshal(raw, &hdr)
+	switch hdr.Mode {
+	case "vc":
+		return runVC(raw)
+	case "keyless":
+		return runKeyless(raw)
+	}
 	var c c23.Case
 	if err := json.Unmarshal(raw, &c); err != nil {
 		return nil, err
@@ -106,6 +117,279 @@ func Run(raw json.RawMessage) (any, error) {
 		return nil, err
 	}
 	if o.ByA2, o.ByB2, err = read(); err != nil {
+		return nil, err
+	}
+	return o, nil
+}
+
+// ---------------------------------------------------------------------------------------------
+// Mode "vc": version-control operations.  Two branches get DML (the right one may also add NOT NULL
+// to column b), then main runs dolt_merge (forced commit; conflicts resolved with --ours/--theirs)
+// or dolt_cherry_pick, optionally dolt_revert; after every operation the table is read by a full
+// scan and through each secondary index; finally the indexes are re-created and read again.
+
+type VCCase struct {
+	Init    [][]int `json:"init"`
+	Left    [][]int `json:"left"`    // statements [_, kind, x, y, z] on main
+	Right   [][]int `json:"right"`   // statements on branch b1
+	NotNull bool    `json:"notnull"` // right: UPDATE t SET b = 0 WHERE b IS NULL; ALTER TABLE t MODIFY b int NOT NULL
+	Op      string  `json:"op"`      // "merge" | "cherry"
+	Resolve string  `json:"resolve"` // "ours" | "theirs"
+	Revert  bool    `json:"revert"`
+	Raw     bool    `json:"raw,omitempty"`
+}
+
+type Checkpoint struct {
+	Label int     `json:"label"` // 0 before the operation, 1 after merge / cherry-pick, 2 after revert, 3 after index rebuild
+	Err   int     `json:"err"`   // error class of the operation that led here (0 none)
+	Full  [][]int `json:"full"`
+	ByA   [][]int `json:"bya"`
+	ByB   [][]int `json:"byb"`
+}
+
+type VCObs struct {
+	Points    []Checkpoint `json:"points"`
+	Conflicts int          `json:"conflicts"` // rows in dolt_conflicts_t after the operation (before resolving)
+	Viol      [][]int      `json:"viol"`      // [violation type, pk] recorded by the operation
+	UsesIdx   bool         `json:"usesidx"`
+	Msg       string       `json:"msg,omitempty"`
+}
+
+func readIdx(f interface{ Exec(string) util.Result }, ss *util.Session) (full, bya, byb [][]int, err error) {
+	fr := sqlsched.Exec(ss, "SELECT pk, a, b FROM t")
+	if fr.Err != 0 {
+		return nil, nil, nil, fmt.Errorf("full scan: %s", fr.Msg)
+	}
+	bya, byb = [][]int{}, [][]int{}
+	for _, v := range vals {
+		r := sqlsched.Exec(ss, "SELECT a, pk FROM t WHERE "+cond("a", v))
+		if r.Err != 0 {
+			return nil, nil, nil, fmt.Errorf("by a: %s", r.Msg)
+		}
+		bya = append(bya, r.Rows...)
+		r = sqlsched.Exec(ss, "SELECT b, a, pk FROM t WHERE "+cond("b", v))
+		if r.Err != 0 {
+			return nil, nil, nil, fmt.Errorf("by b: %s", r.Msg)
+		}
+		byb = append(byb, r.Rows...)
+	}
+	return fr.Rows, bya, byb, nil
+}
+
+func runVC(raw json.RawMessage) (any, error) {
+	var c VCCase
+	if err := json.Unmarshal(raw, &c); err != nil {
+		return nil, err
+	}
+	setup := []string{"CREATE TABLE t (pk int primary key, a int, b int, KEY ia (a), KEY iba (b, a))"}
+	for _, r := range c.Init {
+		setup = append(setup, fmt.Sprintf("INSERT INTO t VALUES (%d, %s, %s)", r[0], sqlsched.V(r[1]), sqlsched.V(r[2])))
+	}
+	setup = append(setup, "CALL dolt_commit('-Am', 'init')", "CALL dolt_branch('b1')")
+	w, err := sqlsched.NewWorld(0, setup)
+	if err != nil {
+		return nil, err
+	}
+	defer w.Close()
+	s, err := w.Fresh()
+	if err != nil {
+		return nil, err
+	}
+	var o VCObs
+	for _, st := range c.Left {
+		sqlsched.Exec(s, c23.Render(st))
+	}
+	if err := s.MustExec("CALL dolt_commit('-A', '--allow-empty', '-m', 'left')", "CALL dolt_checkout('b1')"); err != nil {
+		return nil, err
+	}
+	if c.NotNull {
+		if err := s.MustExec("UPDATE t SET b = 0 WHERE b IS NULL", "ALTER TABLE t MODIFY b int NOT NULL"); err != nil {
+			return nil, err
+		}
+	}
+	for _, st := range c.Right {
+		sqlsched.Exec(s, c23.Render(st))
+	}
+	if err := s.MustExec("CALL dolt_commit('-A', '--allow-empty', '-m', 'right')", "CALL dolt_checkout('main')", "SET @@dolt_force_transaction_commit = 1"); err != nil {
+		return nil, err
+	}
+	point := func(label, errc int) error {
+		full, bya, byb, err := readIdx(nil, s)
+		if err != nil {
+			return err
+		}
+		o.Points = append(o.Points, Checkpoint{Label: label, Err: errc, Full: full, ByA: bya, ByB: byb})
+		return nil
+	}
+	if err := point(0, 0); err != nil {
+		return nil, err
+	}
+	// the operation
+	var m util.Result
+	if c.Op == "cherry" {
+		m = s.Exec("CALL dolt_cherry_pick('b1')")
+	} else {
+		m = s.Exec("CALL dolt_merge('b1')")
+	}
+	opErr := 0
+	if m.Err != "" {
+		opErr = 3
+		o.Msg = m.Err
+	}
+	cf := sqlsched.Exec(s, "SELECT count(*) FROM dolt_conflicts_t")
+	if cf.Err == 0 && len(cf.Rows) == 1 {
+		o.Conflicts = cf.Rows[0][0]
+	}
+	if o.Conflicts > 0 {
+		if r := s.Exec(fmt.Sprintf("CALL dolt_conflicts_resolve('--%s', 't')", c.Resolve)); r.Err != "" {
+			opErr = 3
+			o.Msg += " resolve: " + r.Err
+		}
+	}
+	o.Viol = [][]int{}
+	if r := s.Exec("SELECT violation_type, pk FROM dolt_constraint_violations_t"); r.Err == "" {
+		for _, row := range r.Rows {
+			ir, _, _ := sqlsched.IntRows([][]string{{row[0], row[1]}})
+			o.Viol = append(o.Viol, ir[0])
+		}
+	}
+	if opErr == 0 {
+		if r := s.Exec("CALL dolt_commit('-A', '--allow-empty', '--force', '-m', 'op')"); r.Err != "" && !strings.Contains(r.Err, "nothing to commit") {
+			o.Msg += " commit: " + r.Err
+		}
+	}
+	if err := point(1, opErr); err != nil {
+		return nil, err
+	}
+	if c.Revert && opErr == 0 {
+		r := s.Exec("CALL dolt_revert('HEAD')")
+		e := 0
+		if r.Err != "" {
+			e = 3
+			o.Msg += " revert: " + r.Err
+		}
+		if err := point(2, e); err != nil {
+			return nil, err
+		}
+	}
+	pa := s.Exec("EXPLAIN PLAN SELECT a, pk FROM t WHERE a = 1")
+	plan := ""
+	for _, r := range pa.Rows {
+		plan += strings.Join(r, " ") + "\n"
+	}
+	o.UsesIdx = strings.Contains(plan, "IndexedTableAccess")
+	if err := s.MustExec("ALTER TABLE t DROP INDEX ia", "ALTER TABLE t DROP INDEX iba", "CREATE INDEX ia ON t (a)", "CREATE INDEX iba ON t (b, a)"); err != nil {
+		return nil, err
+	}
+	if err := point(3, 0); err != nil {
+		return nil, err
+	}
+	if !c.Raw {
+		o.Msg = ""
+	}
+	return o, nil
+}
+
+// ---------------------------------------------------------------------------------------------
+// Mode "keyless": k(a int, b int, KEY ka (a)) without a primary key; duplicate rows; DELETE / UPDATE
+// with LIMIT on one exact row value; after every statement the table is read by a scan and through
+// the index, with multiplicities.
+
+type KLCase struct {
+	Steps [][]int `json:"steps"` // [kind, a, b, n, z]: 0 insert n copies of (a,b); 1 delete up to n copies; 2 set b=z on up to n copies; 3 set a=z on up to n copies
+	Raw   bool    `json:"raw,omitempty"`
+}
+
+type KLPoint struct {
+	Err  int     `json:"err"`
+	Aff  int     `json:"aff"`
+	Scan [][]int `json:"scan"` // rows (a, b) with multiplicity
+	ByA  [][]int `json:"bya"`  // rows (a, b) found through the index, per value of a
+}
+
+type KLObs struct {
+	Points  []KLPoint `json:"points"`
+	Rebuilt [][]int   `json:"rebuilt"` // index reads after DROP / CREATE INDEX
+	UsesIdx bool      `json:"usesidx"`
+	Msg     string    `json:"msg,omitempty"`
+}
+
+func eqn(col string, v int) string {
+	if v < 0 {
+		return col + " IS NULL"
+	}
+	return fmt.Sprintf("%s = %d", col, v)
+}
+
+func runKeyless(raw json.RawMessage) (any, error) {
+	var c KLCase
+	if err := json.Unmarshal(raw, &c); err != nil {
+		return nil, err
+	}
+	w, err := sqlsched.NewWorld(0, []string{"CREATE TABLE k (a int, b int, KEY ka (a))", "CALL dolt_commit('-Am', 'init')"})
+	if err != nil {
+		return nil, err
+	}
+	defer w.Close()
+	s, err := w.Fresh()
+	if err != nil {
+		return nil, err
+	}
+	var o KLObs
+	viaIdx := func() ([][]int, error) {
+		out := [][]int{}
+		for _, v := range vals {
+			r := sqlsched.Exec(s, "SELECT a, b FROM k WHERE "+cond("a", v))
+			if r.Err != 0 {
+				return nil, fmt.Errorf("by a: %s", r.Msg)
+			}
+			out = append(out, r.Rows...)
+		}
+		return out, nil
+	}
+	for _, st := range c.Steps {
+		kind, a, b, n, z := st[0], st[1], st[2], st[3], st[4]
+		var q string
+		where := eqn("a", a) + " AND " + eqn("b", b)
+		switch kind {
+		case 0:
+			row := fmt.Sprintf("(%s, %s)", sqlsched.V(a), sqlsched.V(b))
+			rows := []string{}
+			for i := 0; i < n; i++ {
+				rows = append(rows, row)
+			}
+			q = "INSERT INTO k VALUES " + strings.Join(rows, ", ")
+		case 1:
+			q = fmt.Sprintf("DELETE FROM k WHERE %s LIMIT %d", where, n)
+		case 2:
+			q = fmt.Sprintf("UPDATE k SET b = %s WHERE %s LIMIT %d", sqlsched.V(z), where, n)
+		case 3:
+			q = fmt.Sprintf("UPDATE k SET a = %s WHERE %s LIMIT %d", sqlsched.V(z), where, n)
+		}
+		r := sqlsched.Exec(s, q)
+		if r.Err != 0 && c.Raw {
+			o.Msg += q + ": " + r.Msg + "; "
+		}
+		sc := sqlsched.Exec(s, "SELECT a, b FROM k")
+		if sc.Err != 0 {
+			return nil, fmt.Errorf("scan: %s", sc.Msg)
+		}
+		bya, err := viaIdx()
+		if err != nil {
+			return nil, err
+		}
+		o.Points = append(o.Points, KLPoint{Err: r.Err, Aff: r.Aff, Scan: sc.Rows, ByA: bya})
+	}
+	pa := s.Exec("EXPLAIN PLAN SELECT a, b FROM k WHERE a = 1")
+	plan := ""
+	for _, r := range pa.Rows {
+		plan += strings.Join(r, " ") + "\n"
+	}
+	o.UsesIdx = strings.Contains(plan, "IndexedTableAccess")
+	if err := s.MustExec("ALTER TABLE k DROP INDEX ka", "CREATE INDEX ka ON k (a)"); err != nil {
+		return nil, err
+	}
+	if o.Rebuilt, err = viaIdx(); err != nil {
 		return nil, err
 	}
 	return o, nil
